@@ -624,6 +624,32 @@ Fixpoint calls_stmt (t : stmt) {struct t} : list name :=
   | _ => []
   end.
 
+(* names a statement mentions that are not bound by its own parameters / earlier `make`s *)
+Definition fvx (bound : list name) (e : expr) : list name :=
+  filter (fun n => negb (mem_name n bound)) (vars_expr e).
+
+Fixpoint fv_stmt (bound : list name) (t : stmt) {struct t} : list name :=
+  let blk := fun (bound : list name) (b : list stmt) =>
+    (fix go (ts : list stmt) (bound : list name) {struct ts} : list name :=
+       match ts with
+       | [] => []
+       | t' :: r =>
+           fv_stmt bound t' ++
+           go r (match t' with SMake _ n _ _ => n :: bound | _ => bound end)
+       end) b bound in
+  match t with
+  | SFun _ _ ps body _ _ _ => blk (ps ++ bound) body
+  | SMake _ _ _ e => fvx bound e
+  | SSet _ n _ e => (if mem_name n bound then [] else [n]) ++ fvx bound e
+  | SSetIdx _ tg e => fvx bound tg ++ fvx bound e
+  | SIf _ c t f =>
+      fvx bound c ++ blk bound t ++ match f with Some fb => blk bound fb | None => [] end
+  | SLoop _ c b => fvx bound c ++ blk bound b
+  | SBlock _ b => blk bound b
+  | SRet _ (Some e) | SExpr _ e => fvx bound e
+  | _ => []
+  end.
+
 (* per function defined directly in the block: (name, index of the last top-level `make`
    before the definition whose variable the body mentions, or -1, names it calls) *)
 Fixpoint last_needed (ts : list stmt) (k : Z) (used : list name) (acc : Z) : Z :=
@@ -637,7 +663,7 @@ Fixpoint fn_infos (pre : list stmt) (ts : list stmt) : list (name * Z * list nam
   match ts with
   | [] => []
   | (SFun _ n _ _ _ _ _ as t) :: r =>
-      (n, last_needed pre 0 (vars_stmt t) (-1), calls_stmt t) :: fn_infos (pre ++ [t]) r
+      (n, last_needed pre 0 (fv_stmt [] t) (-1), calls_stmt t) :: fn_infos (pre ++ [t]) r
   | t :: r => fn_infos (pre ++ [t]) r
   end.
 
